@@ -219,6 +219,25 @@ func (s *Sim) LeaseLoss(tok string) ([]string, error) {
 	l.cancel()
 	if p.kind != gTimer {
 		close(p.grant)
+	} else {
+		// a process waiting on a timer sits in `select { <-ctx.Done(); <-timer }` on its ROLE context: it must wake by itself. One that
+		// does not (it waits on another context) has not noticed that it lost its role.
+		woke := make(chan bool, 1)
+		go func() { woke <- w.S.waitParked(s.nProcs) }()
+		select {
+		case <-woke:
+		case <-time.After(3 * time.Second):
+			w.S.mu.Lock()
+			w.S.parked[role] = p
+			w.S.current = ""
+			w.S.cond.Broadcast()
+			w.S.mu.Unlock()
+			<-woke
+			w.Mon.violate("C11", "role-loss-stops-work", "role-loss-ignored-while-waiting:"+strings.SplitN(tok, ":", 2)[0],
+				fmt.Sprintf("process %s lost its role while waiting on a timer (deadline %v) and keeps waiting: it does not go back to asking for its role", tok, p.deadline.Sub(Epoch)))
+			w.Mon.endOp()
+			return w.obs, nil
+		}
 	}
 	if err := s.wait(); err != nil {
 		return w.obs, err
